@@ -18,7 +18,7 @@ Open Scope Z_scope.
 Definition result := list Z.
 
 Inductive case :=
-| CRun (mode : Z)                       (* origin*3 + sharing, see harness/cmd/c20_race *)
+| CRun (mode : Z)                       (* origin*3 + sharing, 9 = family with per-Otto settings; see harness/cmd/c20_race *)
        (n : Z)                          (* number of traces (runtimes, plus the template probe when copying) *)
        (seqt : list (list result))      (* trace of each runtime running alone *)
        (conc : list (Z * result))       (* global trace of the concurrent run: (runtime, result) by completion time *)
